@@ -208,6 +208,10 @@ func (s *Summary) addOutcome(idx int, sc *props.Scenario, out *props.Outcome, ex
 	}
 	if out.Stats.FreeRun {
 		s.FreeRun++
+		// something in this build blocks for real: say so to the parent's silence watchdog
+		// (each such run costs the fall-back delay) and stop waiting long for the next ones
+		os.Stderr.WriteString(".")
+		engine.ShortenFreeRun()
 	}
 	s.Faults["preemption"] += int64(out.Stats.Switches)
 	s.Faults["pool_fresh"] += int64(out.Stats.PoolFresh)
